@@ -66,7 +66,8 @@ def strategy(tier):
              "bcplx": bool(gen and kind in ("herm", "complex_gen", "complex_sym") and draw(st.booleans())),
              "hint": draw(st.booleans()), "sorter": draw(st.sampled_from(SORTERS)),
              "target": [draw(st.sampled_from([0.0, 1.0, -0.5, 2.5])), draw(st.sampled_from([0.0, 0.25, -1.0]))],
-             "scale": draw(st.sampled_from([1.0, 0.01, 100.0])), "payload_seed": draw(SEED)}
+             "scale": draw(st.sampled_from([1.0, 0.01, 100.0])), "payload_seed": draw(SEED),
+             "forder": draw(st.booleans())}
         return c
 
     @st.composite
@@ -384,6 +385,10 @@ def _check_dense(case):
                                     f"hint={case['hint']}"))
 
     A0, B0 = A.copy(), None if B is None else B.copy()
+    if case.get("forder"):       # column-major input arrays (e.g. transposed views); A0/B0 stay pristine references
+        A = np.asfortranarray(A)
+        B = None if B is None else np.asfortranarray(B)
+        labels.append("fortran_order")
     sigs = [pym.Signal("A", A)] + ([] if B is None else [pym.Signal("B", B)])
     try:
         mod = pym.EigenSolve(sigs, **kwargs)
